@@ -41,6 +41,12 @@ class SourceSeg(Segment):
     def summaries(self):
         d = Segment.summaries(self)
 
+        def get_io_loop(I, recv, args, kwargs):
+            # core.get_io_loop (own contract: c_loop.py): SOME event loop -- the current one, a dask client's, or the shared
+            # background loop; nothing says it is the loop this pipeline is bound to
+            return VRef(z3.Const(sym.fresh_name('some_io_loop'), sym.Obj), 'IOLoop')
+        d['get_io_loop'] = get_io_loop
+
         def _run(I, recv, args, kwargs):
             g = I.st.ghost
             g['run_calls'] = VInt(g['run_calls'].t + 1)
@@ -113,6 +119,9 @@ class SourceStart(SourceSeg):
         return [
             Clause('C18.start_of_a_started_source_changes_nothing', ['C18'], when='return', fn=self.unchanged_clause(),
                    kind='protocol', note='P3: no attribute of a started source is touched by another start()'),
+            Clause('C19.starting_never_moves_the_source_to_another_loop', ['C19', 'C18'], when='return', text='self.loop is old(self.loop)',
+                   note='one event loop per pipeline: the loop is fixed when the node is built (Stream.__init__, percolated to the '
+                        'neighbours); a (re)start that re-resolves it would leave the downstream nodes on the old loop'),
             Clause('C18.at_most_one_polling_loop', ['C18'], when='return', text='live + schedules_run() <= 1',
                    kind='protocol', replay={'scenario': 'source_restart_two_loops'},
                    note='P1: starting must not create a second polling loop while an earlier one is still alive'),
